@@ -37,18 +37,26 @@
 // only: the same case is re-run alone twice with the doubled window, it is reported only if
 // both re-runs miss as well, otherwise st.Inconclusive().
 //
-// Sensitivity (scratch worktree, quick tier, each exits 1):
+// After the first reported violation in a process everything that follows is rapid's
+// shrinking; it cannot change the verdict and runs with a 1.5 s window and one confirmation.
 //
-//	M1 worker runs the job twice (`job(); job()`)                      -> exactly-once
-//	M2 worker registers in WorkerQueue only once (no re-registration)  -> jobs-not-executed (confirmed stall)
-//	M3a Release without `<-p.stop`                                     -> release-early / pool-goroutines-alive
-//	M3b dispatcher does not wait for the worker's stop handshake       -> pool-goroutines-alive
-//	M4 dispatcher drops the job when no worker is immediately free     -> jobs-not-executed / submit-stall
-//	M5 one extra worker started                                        -> parallelism
-//	M6 after the stop handshake the dispatcher dequeues one queued job
-//	   and starts it (`go job()`)                                      -> start-after-release / release-early
-//	M7 (own) queue created with half the capacity                      -> queue-capacity
-//	M8 (own) dispatcher stops only cap-1 workers                       -> pool-goroutines-alive
+// Sensitivity (scratch worktree, VERIF_REPO=/tmp/wt_c19 ./check C19, quick tier, every one
+// exits 1; hang-type mutants take ~65 s because of the confirmation re-runs, the others 2 s):
+//
+//	M1  worker runs the job twice (`job(); job()`)                      -> exactly-once
+//	M2  worker registers in WorkerQueue only once (no re-registration)  -> submit-stall / jobs-not-executed (confirmed)
+//	M3a Release without `<-p.stop`                                      -> release-early, pool-goroutines-alive
+//	M3b dispatcher does not wait for the worker's `<-worker.Stop`       -> pool-goroutines-alive (confirmed)
+//	M4  dispatcher drops the job when no worker is immediately free     -> jobs-not-executed (confirmed)
+//	M5  one extra worker started (cap+1)                                -> parallelism, pool-goroutines-alive
+//	M6  after the stop handshake the dispatcher dequeues one queued job
+//	    and starts it (`go job()`)                                      -> start-after-release, release-early
+//	M6b same, but right after the stop signal was accepted              -> parallelism, release-early
+//	M7  (own) queue created with half the capacity                      -> queue-capacity
+//	M8  (own) dispatcher stops only cap-1 workers                       -> pool-goroutines-alive (confirmed)
+//
+// (A variant of M6 that hands the late job to a regular worker and still waits for it before
+// Release returns is indistinguishable under the property text and is not claimed.)
 package c19
 
 import (
@@ -850,15 +858,10 @@ func TestC19(t *testing.T) {
 		q, th = 800, 6000
 	}
 	stat.Check(t, st, "pool", stat.N(q, th), draw, run)
-	key := "slowest_passing_case_ms(norace)"
-	if raceEnabled {
-		key = "slowest_passing_case_ms(race)"
-	}
-	st.Extra(key, float64(slowest.Load())/1e6)
-	gkey := "max_progress_gap_ms(norace)"
-	if raceEnabled {
-		gkey = "max_progress_gap_ms(race)"
-	}
-	st.Extra(gkey, float64(maxGap.Load())/1e6)
+	// one key per process (numeric extras with equal keys would be summed by the driver)
+	shard, _ := stat.Shard()
+	tag := fmt.Sprintf("(race=%v,shard=%d)", raceEnabled, shard)
+	st.Extra("slowest_passing_case_ms"+tag, float64(slowest.Load())/1e6)
+	st.Extra("max_progress_gap_ms"+tag, float64(maxGap.Load())/1e6)
 	st.Extra("wait_window", "a wait gives up after 5s + 20 x longest drawn sleep without any counter movement; doubled for the two confirmation re-runs")
 }
